@@ -20,7 +20,8 @@ Witnesses of its negation (each replayed on the implementation and recorded as a
   `sticky_role_answers_offerers_own_role`  — setup clause on a re-offer that changes the DTLS role
 What is proved of `answer` is stated clause by clause: for ALL inputs `answer_count`,
 `answer_setup_ok(_desc)`, `answer_setup_complements`, `answer_direction_ok`, `answer_mux_ok(_desc)`,
-`answer_bundle_ok`, `answer_extmap_ok`; under named, decidable, satisfiable hypotheses
+`answer_bundle_ok`, `answer_extmap_ok`, `answer_rtx_ok`, and for the re-negotiation audio path
+`answer_audio_reinvite_pts_offered`; under named, decidable, satisfiable hypotheses
 `answer_direction_ok_desc` (`DirSynced`), `answer_aligned_partial` (all mids present, `KindSynced`,
 mids not cleared), their conjunction `answer_valid_core_partial`, and `answer_valid_partial`:
 `validAnswer offer a` in full under those hypotheses plus `RoleFits`, `GroupListsMids` and
@@ -532,6 +533,41 @@ example : KindSynced [trx .audio "0", trx .video "1"] bundleOffer ∧ DirSynced 
   · intro t ht o ho hm
     simp only [bundleOffer, mkOffer, List.mem_cons, List.mem_nil_iff, or_false] at ht ho
     rcases ht with rfl | rfl <;> rcases ho with rfl | rfl <;> rfl
+
+/-! ### codecs: the two places where the offer IS consulted -/
+
+/-- **answer_rtx_ok** — RTX strip and echo: every `apt=` association of an answered VIDEO section is an
+association of the remote section `merge_remote_rtx_into_answer` consults (`rtxSource`: the section with
+that mid, else the first video section); RTX injected by the local configuration is always stripped
+first. All configurations and offers. (For offers whose sections carry distinct mids the consulted
+section is the answered one; for mid-less offers it can be another — known finding `ans:rtx:*`.) -/
+theorem answer_rtx_ok (c : Cfg) (remote : List Media) (hasLocal : Bool) (mid : Str) (q : Nat × Nat)
+    (h : q ∈ aptMap (codecPart c .video remote hasLocal mid).2) :
+    ∃ r, rtxSource remote mid = some r ∧ q ∈ aptMap r.attrs :=
+  video_rtx_echo_offered c remote hasLocal mid q h
+
+/-- **answer_audio_reinvite_pts_offered** — the re-negotiation audio path (a local description exists
+and the capability intersection is non-empty): every answered audio format is a format of the offered
+audio section that was consulted. (`hcanon`: the offer writes payload types canonically, e.g. `8`
+not `08`.) First negotiations and video never take this path — `first_answer_ignores_offer_codecs`. -/
+theorem answer_audio_reinvite_pts_offered (c : Cfg) (remote : List Media) (hasLocal : Bool) (mid : Str)
+    (caps : List ACap) (h : reinviteAudioCaps c remote hasLocal mid = some caps)
+    (hcanon : ∀ r ∈ remote, ∀ f ∈ r.formats, ∀ n, parseU8 f = some n → natStr n = f) :
+    ∃ r ∈ remote, r.kind = .audio ∧ (mid = [] ∨ r.mid = mid) ∧
+      ∀ f ∈ (codecPart c .audio remote hasLocal mid).1, f ∈ r.formats :=
+  reinvite_audio_formats_offered c remote hasLocal mid caps h hcanon
+
+def pcmaOpus109 : Media :=
+  { kind := .audio, mid := "0".toList, port := 9, proto := "UDP/TLS/RTP/SAVPF".toList,
+    formats := ["8".toList, "109".toList], dir := .sendrecv, connection := none,
+    attrs := [attr "rtpmap" "8 PCMA/8000".toList, attr "rtpmap" "109 opus/48000/2".toList] }
+
+def cfgOpusPcmu : Cfg := { cfgDefault with audio := [defaultACap, ⟨0, "PCMU".toList, 8000, 1, none, []⟩] }
+
+/-- non-vacuity: a re-negotiation where the intersection is taken (offer PCMA + opus/109, local opus +
+PCMU): the answer lists `109` only — the offered payload type, not the local `111`. -/
+example : (codecPart cfgOpusPcmu .audio [pcmaOpus109] true "0".toList).1 = ["109".toList] ∧
+    (reinviteAudioCaps cfgOpusPcmu [pcmaOpus109] true "0".toList).isSome = true := by decide
 
 /-! ### the combined partial theorem -/
 
